@@ -4,6 +4,7 @@
 From Coq Require Import List String ZArith QArith Reals Qreals.
 From PV Require Import Model.Dict Model.Terms Model.Sent Model.Cvxpy Spec.GramSem Spec.KKT
      Gen.PostSolve Proofs.C14Run Proofs.C14PostSolve Proofs.C14Heuristic Proofs.C14Examples.
+From PV Require Import Model.EntryPlan Gen.Entry.
 Import ListNotations.
 
 (** For EVERY configuration (any heuristic string or None, any number of logdet iterations, any return
@@ -108,6 +109,14 @@ Proof.
   apply moved_assign_reads_second_solve.
 Qed.
 
+(** The public entry point.  PEP.solve -- REGENERATED from pep.py on every run (translator/tr_entry.py, fail-closed) -- only
+    selects the back-end (lower-cased name; fall-back to cvxpy when the package or its licence is missing), stores it, and
+    calls _solve_with_wrapper ONCE, handing over every option under its own name, unchanged, together with **kwargs; both
+    signatures declare the same constant defaults.  Hence the tolerance, the regularisation, the heuristic string and the return mode that the post-solve program (Gen/PostSolve.v) dispatches on are the values the caller passed, or the documented constant defaults. *)
+Theorem C14_options_travel_unchanged :
+  entry_ok entry_plan forwarded solve_defaults inner_defaults = true.
+Proof. vm_compute. reflexivity. Qed.
+
 Print Assumptions C14_cert_unchanged.
 Print Assumptions C14_check_sound.
 Print Assumptions C14_heuristic_problem.
@@ -117,3 +126,4 @@ Print Assumptions C14_trace.
 Print Assumptions C14_options.
 Print Assumptions C14_options_else_raises.
 Print Assumptions C14_options_none_skips.
+Print Assumptions C14_options_travel_unchanged.
